@@ -9,7 +9,7 @@ BASE = dict(MaxLen=3, MaxT=4, Lo=1, Small=set(), MaxLenS=2, MaxTS=3, Ds={0, 1, 2
 # EchoOps / EchoKs: feedback - the sink, on its k-th element, pushes one more element into the (hot) source from inside on_next
 QUICK = [(["debounce", "throttle_first", "sample"], dict(DispOps={"debounce"}, EchoOps={"sample", "debounce"}, EchoKs={1})),
          (["throttle_with_mapper", "sample_obs"],
-          dict(MaxLen=2, MaxT=3, SpecTs={0, 2}, Terms={"C", "E"}, Small={"sample_obs"}, MaxLenS=2, MaxTS=2, AuxLen=2, Hz=5,
+          dict(MaxLen=2, MaxT=3, SpecTs={0, 2}, SpecKs={"N", "C", "E", "U", "X", "S"}, Terms={"C", "E"}, Small={"sample_obs"}, MaxLenS=2, MaxTS=2, AuxLen=2, Hz=5,
                EchoOps={"sample_obs", "throttle_with_mapper"}, EchoKs={1}))]
 
 THOROUGH = [(["debounce", "throttle_first", "sample"], dict(MaxLen=4, MaxT=6, Ds={0, 1, 2, 3}, Hz=10)),
